@@ -304,4 +304,29 @@ theorem inp_file_independent_of_runtime_state {V D : Type} (f : State V → D) (
 example : (⟨"PRValve", "_setting"⟩ : Slot) ∈ writtenInvisibleToInp ∧ (⟨"Pipe", "_user_status"⟩ : Slot) ∈ writtenInvisibleToInp ∧
     (⟨"Tank", "_head"⟩ : Slot) ∈ writtenInvisibleToInp := by decide +kernel
 
+
+/-! ## 6. results depend on the `to_dict` view only: control registration order -/
+
+/-- **control_order_facts (decided on the regenerated tables).** `WNTRSimulator._get_control_managers` registers the
+model's controls by iterating the control registry directly (`self._wn.controls()`: insertion order, which is the order of
+`to_dict()['controls']`) — no sort, no re-keying by name — and then the simulator-generated controls in a fixed call
+order. Registry NAMES therefore do not influence which of two equal-priority controls firing at the same instant wins; a
+model and its reload (whose simple controls are renamed `control 1..N` in that same order) run them identically. -/
+theorem control_order_facts :
+    controlsRegisteredInInsertionOrder = true ∧ controlRegistrationOrder = "self._wn.controls()" ∧
+    generatedControlSources =
+      ["_get_all_tank_controls", "_get_cv_controls", "_get_pump_controls", "_get_valve_controls"] := by
+  refine ⟨?_, ?_, ?_⟩ <;> decide +kernel
+
+/-- a simulator whose results are a function of an ordered LIST of (name, control) pairs only through the controls, in list
+order — the shape `control_order_facts` establishes — gives the same results for two registries that list the same
+controls in the same order under different names -/
+theorem results_independent_of_control_names {C Res : Type} (sim : List C → Res) (a b : List (String × C))
+    (h : a.map (·.2) = b.map (·.2)) : sim (a.map (·.2)) = sim (b.map (·.2)) := by rw [h]
+
+/-- … whereas NAME order is not insertion order (the witnesses of the generator: `zone_open` is added before `night_close`
+but sorts after it; `control 10` sorts before `control 2`) -/
+theorem name_order_is_not_insertion_order : "night_close" < "zone_open" ∧ "control 10" < "control 2" := by
+  constructor <;> decide +kernel
+
 end Wntr.Frame
